@@ -27,6 +27,27 @@ fn emit(ev: &str, v: Value) {
     dropshot::verif::emit(ev, v);
 }
 
+/// The documented use of `DynamicVersionPolicy`: the header policy, except
+/// that an absent header selects a default version.
+#[derive(Debug)]
+struct DefaultingPolicy {
+    name: http::HeaderName,
+    inner: ClientSpecifiesVersionInHeader,
+    default: semver::Version,
+}
+impl dropshot::DynamicVersionPolicy for DefaultingPolicy {
+    fn request_extract_version(
+        &self,
+        request: &http::Request<dropshot::Body>,
+        log: &slog::Logger,
+    ) -> Result<semver::Version, HttpError> {
+        if request.headers().get(&self.name).is_none() {
+            return Ok(self.default.clone());
+        }
+        self.inner.request_extract_version(request, log)
+    }
+}
+
 async fn handler(rqctx: RequestContext<()>) -> Result<HttpResponseOk<String>, HttpError> {
     Ok(HttpResponseOk(rqctx.endpoint.operation_id.clone()))
 }
@@ -48,6 +69,15 @@ fn main() {
             let chain = version_chain(&mut r, 7);
             let sv = |g: u64| chain[g as usize - 1].to_semver();
             let maxg: u64 = r.gen_range(3..=7);
+            // version policy of this episode (Versions.tla: Policies)
+            let pol = match r.gen_range(0..10) {
+                0..=5 => "header",
+                6 | 7 => "default",
+                _ => "unversioned",
+            };
+            let dfltg: u64 = if pol == "default" { r.gen_range(1..=maxg) } else { 0 };
+            // half of the unversioned episodes use tables an unversioned server may have
+            let only_all = pol == "unversioned" && r.gen_bool(0.5);
             // a conflict-free table on path /v: per method a few disjoint ranges
             let methods = ["GET", "PUT", "DELETE", "POST"];
             let mut table: Vec<Value> = vec![];
@@ -63,7 +93,8 @@ fn main() {
                     vec![json!({"k": "from", "a": 6})],
                     vec![json!({"k": "fu", "a": 2, "b": 2}), json!({"k": "fu", "a": 4, "b": 6})],
                 ];
-                for rg in &shapes[r.gen_range(0..shapes.len())] {
+                let pick = if only_all { 0 } else { r.gen_range(0..shapes.len()) };
+                for rg in &shapes[pick] {
                     opn += 1;
                     let op = format!("op{}", opn);
                     let versions = match jstr(&rg["k"]).as_str() {
@@ -78,17 +109,28 @@ fn main() {
                 }
             }
             let log = slog::Logger::root(slog::Discard, slog::o!());
-            let policy = VersionPolicy::Dynamic(Box::new(ClientSpecifiesVersionInHeader::new(
-                "x-api-version".parse().unwrap(),
-                sv(maxg),
-            )));
-            let server = ServerBuilder::new(api, (), log)
+            let hname: http::HeaderName = "x-api-version".parse().unwrap();
+            let policy = match pol {
+                "header" => VersionPolicy::Dynamic(Box::new(ClientSpecifiesVersionInHeader::new(hname.clone(), sv(maxg)))),
+                "default" => VersionPolicy::Dynamic(Box::new(DefaultingPolicy {
+                    name: hname.clone(),
+                    inner: ClientSpecifiesVersionInHeader::new(hname.clone(), sv(maxg)),
+                    default: sv(dfltg),
+                })),
+                _ => VersionPolicy::Unversioned,
+            };
+            let started = ServerBuilder::new(api, (), log)
                 .config(ConfigDropshot { bind_address: "127.0.0.1:0".parse().unwrap(), ..Default::default() })
                 .version_policy(policy)
-                .start()
-                .expect("server");
+                .start();
+            emit("reset", json!({"table": table, "max": maxg, "policy": pol, "dflt": dfltg, "built": started.is_ok(),
+                "build_error": started.as_ref().err().map(|e| e.to_string()).unwrap_or_default(),
+                "chain": chain.iter().map(|c| c.to_string()).collect::<Vec<_>>()}));
+            let server = match started {
+                Ok(s) => s,
+                Err(_) => continue,
+            };
             let addr = server.local_addr();
-            emit("reset", json!({"table": table, "max": maxg, "chain": chain.iter().map(|c| c.to_string()).collect::<Vec<_>>()}));
             let mut ctr = 0;
             for m in ["GET", "PUT", "DELETE", "POST", "PATCH"] {
                 let mut cases: Vec<(&str, u64, Option<Vec<u8>>)> = vec![
